@@ -104,6 +104,8 @@ impl Shell {
             if let Some(job) = self.jobs.get_mut(&i) {
                 if job.gid == gid {
                     job.pids_stopped.remove(&pid);
+                    // a job with a running member is running
+                    job.status = "Running".to_string();
                     idx_found = i;
                     break;
                 }
